@@ -304,6 +304,18 @@ def render(m, what, pattern, out):
             out.extend(digits(mi, 2))
         elif f == 'S':
             out.extend(digits(s, 2))
+        elif f == 'y':
+            y16 = z3.Extract(15, 0, y)
+            out.extend(digits(z3.ZeroExt(16, z3.URem(y16, z3.BitVecVal(100, 16))), 2))
+        elif f == 'G':
+            # ISO 8601 week-numbering year: the calendar year of the Thursday of the date's ISO week
+            days = days_from_civil(y, mo, d)
+            wd = z3.SRem(z3.SRem(days + 3, 7) + 7, 7)          # Monday = 0 (1970-01-01 was a Thursday)
+            t = d - wd + 3                                       # day-of-month of that Thursday (may leave the month)
+            gy = z3.If(z3.And(mo == 1, t < 1), y - 1, z3.If(z3.And(mo == 12, t > 31), y + 1, y))
+            if not m.ctx.branch(z3.And(gy >= 0, gy <= 9999)):
+                raise Unsupported('%G outside 0..9999')
+            out.extend(digits(z3.simplify(gy), 4))
         elif f == '%':
             out.append(Int('u8', 0x25))
         else:
@@ -430,6 +442,13 @@ def install(m):
         y, mo, d, _, _, _ = dt.ensure_civil(m)
         return NaiveDate(y, mo, d)
     L['date_naive'] = date_naive
+
+    L['DateTime::timestamp'] = lambda m, a, c, rt: Int('i64', (a[0] if isinstance(a[0], DateTime) else deref(m, a[0])).secs)
+    L['timestamp'] = L['DateTime::timestamp']
+    L['timestamp_subsec_nanos'] = lambda m, a, c, rt: Int('u32', (a[0] if isinstance(a[0], DateTime) else deref(m, a[0])).nanos)
+    L['timestamp_millis'] = lambda m, a, c, rt: Int('i64', z3.simplify(
+        (a[0] if isinstance(a[0], DateTime) else deref(m, a[0])).secs * 1000 +
+        z3.ZeroExt(32, z3.UDiv((a[0] if isinstance(a[0], DateTime) else deref(m, a[0])).nanos, z3.BitVecVal(1000000, 32)))))
 
     def dt_from_str(m, a, c, rt):
         es = elems_of(m, a[0])
